@@ -95,6 +95,23 @@ T = {
  "R4C-m4": ("C19", "storage.rs `seq!(N in 17..32` (exclusive): no Storage32", "32_components + an archetype with exactly 32 components: does not compile"),
  "R4C-m5": ("C17", "storage.rs clear_events returns early if `created` is empty", "events: clear, then destroys without creates in that archetype, then clear again"),
  "OWN-C18-unsafe": ("C18", "macros generate/query.rs ecs_iter_destroy! ContinueDestroy arm reads the handle with `unsafe { *slices.entity.get_unchecked(idx) }` (written here, after two sub-agents reported that no compile-verdict demonstration exists: forbid(unsafe_code) does not see proc-macro output; demo.sh greps rustc's expansion)", "any use of ecs_iter_destroy!: the expansion contains the unsafe keyword although user crates that forbid unsafe code still compile"),
+ "R5A-m1": ("C01", "storage.rs Clone: `if self.len == 0 { return Self::with_capacity(self.capacity) }` fast path", "an archetype that was used but is empty when the world is cloned, then a create in the clone: generations and version restart, stale handles resolve"),
+ "R5A-m3": ("C12", "storage.rs Clone: free_head rewound to slot 0 when the source is drained (links copied verbatim)", "fill, drain in an order whose last-released slot is not 0, clone, refill the clone: free positions leaked, end marker popped in unchecked code"),
+ "R5B-m2": ("C16", "macros generate/query.rs: is_cfg_enabled precomputation factored into a helper that generate_query_iter_destroy forgets to call", "ecs_iter_destroy! with a cfg-false parameter naming a component / Entity<A> only some matching archetypes have"),
+ "R5B-m3": ("C05", "macros generate/query.rs bind_one_of: ambiguity check over windows(2) of the OneOf arguments (adjacent pairs only)", "OneOf of arity >= 3 with an archetype holding two non-adjacent members: compiles and binds the first (compile-verdict demo: the unchanged tree rejects the program)"),
+ "R5C-m1": ("C15", "macros data.rs advance_attribute_id: explicit id 0 treated as no attribute", "#[archetype_id(0)] / #[component_id(0)] on an item that is not the first enabled one of its scope"),
+ "R5C-m2": ("C15", "macros parse/world.rs: early duplicate check over explicit archetype ids before cfg evaluation", "two archetypes with the same explicit id of which at least one is cfg-disabled: a valid world is rejected"),
+ "R5C-m3": ("C14", "entity.rs EntityDirect<A>::from_any delegates to from_any_unchecked (debug_assert only)", "release build, EntityDirect::from_any on another archetype's EntityDirectAny: returns a mistyped handle instead of panicking"),
+ "R5C-m4": ("C14", "entity.rs EntityAny: manual PartialEq through a packed() helper that shifts the key by 8 instead of 32 (shared with Hash)", "generation >= 256 together with low archetype-id bits: distinct handles compare equal, HashSet collapses"),
+ "R5D-m1": ("C10", "storage.rs grow: early `capacity >= MAX` guard removed, failure reported after the body ran", "an archetype at exactly 2^24 entities and one more create: free-list end marker written over a live slot before the documented panic"),
+ "R5D-m3": ("C04", "storage.rs Drop: columns dropped through try_borrow_mut() (skipped when flagged as borrowed)", "a runtime-borrow guard leaked with mem::forget, then the world dropped: that column's components never dropped"),
+ "R5E-m1": ("C13", "slot.rs hand-written Clone for Slot resets the generation of free slots", "a slot released at least once and free at clone time, reused in the clone: handle differs from the original's, stale handle resolves in the clone"),
+ "R5F-m1": ("C08", "version.rs: overflow panic arms gated on debug_assertions (wrapping otherwise)", "default features, build without debug assertions, a position recycled 2^32-1 times: old handle reissued"),
+ "R5F-m2": ("C15", "macros data.rs advance_attribute_id: the already-assigned check only applies to explicit ids", "explicit ids 1, 0 followed by an implicit item (gets 1 again): two archetypes share an id, equal handles across archetypes (written for C08; compile-verdict)"),
+ "R5G-m2": ("C09", "version.rs ArchetypeVersion::next (wrapping_version arm) saturates", "wrapping_version and the archetype version at u32::MAX: removals stop invalidating direct handles"),
+ "R5G-m3": ("C07", "macros generate/query.rs generate_query_iter_destroy: EcsStepDestroy::Break arm `break` instead of `return`", "Break in a non-last matched archetype of ecs_iter_destroy!: later archetypes still visited"),
+ "R5G-m4": ("C11", "macros generate/query.rs bind_query_params: the component parameter synthesised for a OneOf is always is_mut", "shared &OneOf<..> in ecs_find_borrow!/ecs_iter_borrow! nested in another shared borrow of the same column: spurious 'already borrowed'"),
+ "R5G-m5": ("C17", "storage.rs (events): destroyed-event push moved from force_destroy into the Entity-keyed resolve_destroy", "events + destroy through EntityDirect / EntityDirectAny: no destroyed event"),
 }
 
 
